@@ -293,11 +293,16 @@ func genC20(r *rand.Rand, tier string, env *Env) []Case {
 	mk(c20Scenario{Running: "v1.5.0", Releases: []c20Release{{Tag: "v2.1.0", Platform: "linux_amd64", AssetKind: "corrupt-targz", Checksum: "ok"}}}, "corrupt-archive")
 	mk(c20Scenario{Running: "v1.5.0", Releases: []c20Release{{Tag: "v2.1.0", Platform: "linux_amd64", AssetKind: "http-500", Checksum: "ok"}}}, "download-failure")
 	mk(c20Scenario{Running: "v1.5.0", Releases: []c20Release{{Tag: "v2.1.0", Platform: "linux_amd64", AssetKind: "raw", Checksum: "http-500"}}}, "checksum-download-failure")
+	// running versions that carry a pre-release tag are ordinary semantic versions: an rc NEWER than every release
+	// must stay, an rc of the newest release is older than it
+	mk(c20Scenario{Running: "v2.2.0-rc.1", Releases: []c20Release{good}}, "prerelease-build-newer-than-catalogue")
+	mk(c20Scenario{Running: "v2.1.1-next", Releases: []c20Release{good, {Tag: "v2.0.0", Platform: "linux_amd64", AssetKind: "raw", Checksum: "ok"}}}, "snapshot-build-newer-than-catalogue")
+	mk(c20Scenario{Running: "v2.1.0-rc.1", Releases: []c20Release{good}}, "prerelease-build-of-newest-release")
 	mk(c20Scenario{Running: "v1.5.0", Releases: nil}, "no-releases")
 	mk(c20Scenario{Running: "v1.5.0", Releases: []c20Release{good}, ListFail: 500}, "list-failure")
 	mk(c20Scenario{Running: "v1.5.0", Releases: []c20Release{{Tag: "v9.0.0", Prerelease: true, Platform: "linux_amd64", AssetKind: "raw", Checksum: "ok"}, {Tag: "v9.1.0", Draft: true, Platform: "linux_amd64", AssetKind: "raw", Checksum: "ok"}, good}}, "prerelease-and-draft-ignored")
 	for i := 0; i < n; i++ {
-		sc := c20Scenario{Running: pick(r, []string{"v1.5.0", "v0.0.0-dev", "v2.1.0", "v1.5.0"})}
+		sc := c20Scenario{Running: pick(r, []string{"v1.5.0", "v0.0.0-dev", "v2.1.0", "v1.5.0", "v2.5.0-rc.1", "v2.0.1-next", "v1.5.1-beta"})}
 		k := r.Intn(4)
 		for j := 0; j < k; j++ {
 			sc.Releases = append(sc.Releases, c20Release{
